@@ -41,10 +41,11 @@ THEOREMS = [
     "Determinism.documentOrder_visible_only",
     "Determinism.addTemplate_swap", "Determinism.addTemplateDir_listing_invariant_partial",
     "Determinism.addTemplateDir_listing_counterexample_old", "Determinism.addTemplateDirSorted_listing_invariant",
-    "Determinism.getExtensions_listing_counterexample", "Determinism.getExtensions_listing_invariant_partial",
-    "Determinism.getExtensionsSorted_listing_invariant", "Determinism.kindAfterVisitors_order_counterexample",
-    "Determinism.kindAfterVisitors_single_claim",
-    "Determinism.setRepr_invariant_partial", "Determinism.setRepr_counterexample", "Determinism.setReprSorted_invariant",
+    "Determinism.getExtensions_listing_invariant", "Determinism.getExtensionsSorted_listing_invariant",
+    "Determinism.getExtensions_listing_counterexample_old", "Determinism.getExtensionsOld_listing_invariant_partial",
+    "Determinism.kindAfterVisitors_order_counterexample", "Determinism.kindAfterVisitors_single_claim",
+    "Determinism.setRepr_invariant", "Determinism.setReprSorted_invariant",
+    "Determinism.setReprOld_invariant_partial", "Determinism.setRepr_counterexample_old",
     "Determinism.rstDate_is_the_clock", "Determinism.rstDate_counterexample",
     "Determinism.buildtime_function_of_inputs", "Determinism.buildtime_epoch_used", "Determinism.buildtime_epoch_zero",
     "Determinism.buildtime_option_wins", "Determinism.buildtime_clock_when_unset", "Determinism.buildtime_notInt_refused",
@@ -63,18 +64,6 @@ PARTIAL = {
     "Determinism.lower_order_invariant_partial":
         "findRootClasses (classIndex roots) and the zope `implements` list sort by x.lower(): excluded are names that differ in "
         "case only; lower_tie_counterexample; ties keep dict / list order",
-    "Determinism.getExtensions_listing_invariant_partial":
-        "statement: the order in which the built-in extensions are loaded does not depend on how the file system lists "
-        "pydoctor/extensions/. False of the code (unsorted iterdir()); proved for a directory with at most one extension "
-        "module; getExtensions_listing_counterexample; kindAfterVisitors_order_counterexample shows that the load order reaches "
-        "the output (attrs and zopeinterface both assign attr.kind, last loaded wins), kindAfterVisitors_single_claim that it "
-        "does so only when two extensions claim the same assignment. OPEN finding listing-order:extension-load-order; "
-        "getExtensionsSorted_listing_invariant is the full statement for fixes/C18-extension-load-order-sorted.diff",
-    "Determinism.setRepr_invariant_partial":
-        "statement: the text of a set default of an introspected signature (--introspect-c-modules, model._EscapedRepr) does not "
-        "depend on the enumeration of the set. False (repr of the live set); proved for sets of at most one element; "
-        "setRepr_counterexample. OPEN finding hashseed:introspected-set-default; setReprSorted_invariant is the full statement "
-        "for fixes/C18-introspected-set-default-sorted.diff",
     "Determinism.rstDate_is_the_clock":
         "statement: the time a docstring shows through docutils' `date` directive is a function of SOURCE_DATE_EPOCH / "
         "--buildtime. False: it is the wall clock whatever is given (rstDate_counterexample, next to the footer time, which "
@@ -423,10 +412,10 @@ def corpus_projects() -> List[Dict[str, Any]]:
         dict(proj("template-case-collision", {"m.py": "x = 1\n"}, ["m.py"], ["--template-dir=@TPL@"], "1"),
              templates={"Extra.css": "/* UPPER */\n", "extra.css": "/* lower */\n", "My.css": "A\n", "my.css": "b\n", "plain.txt": "t\n"},
              modes=["sorted", "reverse"]),
-        # hunter round. open finding listing-order:extension-load-order: attrs and zopeinterface both claim an assignment
+        # hunter round. finding listing-order:extension-load-order (fixed 2786e75): attrs and zopeinterface both claim an assignment
         dict(proj("extension-conflict", {"m.py": CONFLICT_SNIPPET.format(n=0)}, ["m.py"], ["--project-name=demo"], "1700000000", "demo"),
              modes=["sorted", "reverse"]),
-        # open finding hashseed:introspected-set-default: --introspect-c-modules, set default in a text signature
+        # finding hashseed:introspected-set-default (fixed 828eb1f): --introspect-c-modules, set default in a text signature
         add_cmodule(proj("c-module-set-default", {"lib.py": "x = 1\n"}, ["lib.py"], ["--project-name=demo"], "1", "demo")),
         # open finding wall-clock:rst-date-directive: docutils' date directive shows the clock whatever build time is given
         proj("rst-date-directive", {"m.py": '"""Generated at |now|.\n\n.. |now| date:: %Y-%m-%d %H:%M:%S\n"""\n__docformat__ = "restructuredtext"\n'
@@ -1399,8 +1388,9 @@ def hunter_streams(ctx: Ctx, st: Streams) -> None:
         s_ = set(rng.sample(words, rng.randint(0, 5)))
         enum = list(s_)
         import html as _html
-        st.add("model._EscapedRepr(set)~setRepr", "determinism setrepr " + " ".join(enc(_html.escape(repr(x), quote=False)) for x in enum),
-               "ok " + enc(repr(model._EscapedRepr(s_))), {"enumeration": enum})
+        # the model works on the raw reprs (the order is decided before html.escape is applied to the whole text)
+        st.add("model._EscapedRepr(set)~setRepr", "determinism setrepr " + " ".join(enc(repr(x)) for x in enum),
+               "ok " + enc(_html.unescape(repr(model._EscapedRepr(s_)))), {"enumeration": enum})
     # --- docutils' date directive under a moved clock, SOURCE_DATE_EPOCH set / unset
     import calendar
     from pydoctor.epydoc.markup import restructuredtext
